@@ -515,6 +515,22 @@ func runC10(c *Ctx) {
 
 // ---- C11 --------------------------------------------------------------------------------------
 
+// the FIRST run-time error of a kind on a fresh generator, created by all goroutines at once: error texts are built from
+// objects the generator owns (function descriptions, type names, method tables); every worker case starts on a generator
+// of its own, so round 0 is that first time (each program stands three times: once per GOMAXPROCS group)
+var c11ErrorPrograms = func() []string {
+	base := []string{
+		"a.nope(1)", "[a, 2].top()", "[a].map()", "{k: a}.put(1)", "a.string(1, 2)", "\"s\".cut(a)", "nope(a)", "[a].nope", "{k: a}.j", "a.k",
+		"try a.nope(1) catch e -> e.len() > 0", "try [a, 2].top() catch e -> e.len() > 0", "[1, 2].map(e -> e.nope(a)).size()",
+		"abs(a, a)", "sqrt(\"x\" + a)", "[a](1)", "a(1)", "(x -> x)(a, a)", "numbers(3).reduce(a)", "[a, 1].order((p, q) -> p.nope()).size()",
+	}
+	var r []string
+	for _, b := range base {
+		r = append(r, b, b, b)
+	}
+	return r
+}()
+
 // workerConc: lines `id TAB goroutines TAB rounds TAB program`. One Generate; per round all goroutines
 // are released by a barrier and evaluate with their own argument (equal for even rounds).
 func workerConc(args []string) {
@@ -626,7 +642,7 @@ func runConcWorker(cases []*concCase, rounds, gmp int) {
 		}
 		bin := filepath.Join(verifRoot, ".work/bin/tie-race")
 		cmd := exec.Command(bin, "worker", "conc")
-		cmd.Env = append(os.Environ(), "GOMEMLIMIT=3GiB", "GORACE=halt_on_error=1 exitcode=66", fmt.Sprintf("GOMAXPROCS=%d", gmp))
+		cmd.Env = append(os.Environ(), "GOMEMLIMIT=3GiB", "GORACE=halt_on_error=1 exitcode=66 history_size=4", fmt.Sprintf("GOMAXPROCS=%d", gmp))
 		stdin, _ := cmd.StdinPipe()
 		stdout, _ := cmd.StdoutPipe()
 		var errb strings.Builder
@@ -690,7 +706,7 @@ func runC11(c *Ctx) {
 	c.assume = append(c.assume, "the race detector and the Go memory model are the runtime authority on the explored schedules; the theorem-level content is the model's access discipline (fresh stack per evaluation, constants read-only)")
 	n := c.Pick(150, 4000)
 	rounds := c.Pick(12, 30)
-	progs := genC10Programs(c, n, c.Pick(4, 6))
+	progs := append(append([]string{}, c11ErrorPrograms...), genC10Programs(c, n, c.Pick(4, 6))...)
 	gmps := []int{16, 4, 1}
 	var all []*concCase
 	groups := map[int][]*concCase{}
